@@ -77,6 +77,17 @@ def run(ck):
             z, v = rng.scalar(), rng.scalar()
             arg = " | ".join(" ".join(hx(c) for c in p) for p in ps)
             h(f"aggw{i}", "aggw", hx(z), hx(v), arg); m(f"aggw{i}", "aggw", hx(z), hx(v), arg)
+            # zero / all-zero-coefficient polynomials at the first, a middle and the last position
+            for zi, pos in enumerate(("first", "middle", "last", "two")):
+                qs = [[rng.scalar() for _ in range(rng.randrange(1, 6))] for _ in range(4)]
+                zero = [[0], [0, 0, 0], [0], [0]][zi]
+                if pos == "first": qs[0] = zero
+                elif pos == "middle": qs[2] = zero
+                elif pos == "last": qs[3] = zero
+                else: qs[0] = zero; qs[1] = [0, 0]
+                arg2 = " | ".join(" ".join(hx(c) for c in p) for p in qs)
+                h(f"aggwz{i}_{zi}", "aggw", hx(z), hx(v), arg2); m(f"aggwz{i}_{zi}", "aggw", hx(z), hx(v), arg2)
+                ck.count(("aggz", deg, i, pos), kind="aggregate with a zero polynomial (" + pos + ")")
             parts = [(rng.scalar(), rng.scalar()) for _ in range(rng.randrange(1, 6))]
             want_c = horner([c for _, c in parts], v)
             fl = " ".join(hx(e) + " " + hx(c) for e, c in parts)
@@ -110,7 +121,7 @@ def run(ck):
         ck.violation(f"KZG exactness fails ({len(bad_total)} cases); first: SRS degree {deg}, case {nm}: implementation says '{got[:80]}', exponent-level model says '{want[:80]}'",
                      {"failing_input_found": True, "srs_degree": deg, "case": nm, "harness_line": line, "impl": got, "model": want}, key="kzg:" + nm.rstrip("0123456789"))
     return ck.finish(level="proof",
-        rule="scripted-RNG SRS (secret known) of several degrees: all G1 powers and the G2 element checked against the secret; trims at/above/below the degree; commitments of zero/empty/constant/full/over-degree/trailing-zero polynomials and of a, b, a+b, each compared with g*p(x); batches of size 1..k with one wrong evaluation or witness at every position, swapped and cancelling entries, identity witness with wrong value, empty and mismatched batches -- verdict of the exponent-level model vs the real pairing check; aggregate witness and flatten vs definitions",
+        rule="scripted-RNG SRS (secret known) of several degrees: all G1 powers and the G2 element checked against the secret; trims at/above/below the degree; commitments of zero/empty/constant/full/over-degree/trailing-zero polynomials and of a, b, a+b, each compared with g*p(x); batches of size 1..k with one wrong evaluation or witness at every position, swapped and cancelling entries, identity witness with wrong value, empty and mismatched batches -- verdict of the exponent-level model vs the real pairing check; aggregate witness (incl. zero polynomials at the first / a middle / the last position) and flatten vs definitions",
         assumptions=["pairing bilinear and non-degenerate, scalar multiplication of dusk-bls12_381 correct (used to turn exponents into points)", "computational binding is an assumption, not a theorem",
                      "the batching challenge avoids the at most k-1 roots of a non-zero error polynomial (C20_batch_check_iff_all)"],
         checker_cmd=proofgate.CHECKER_CMD, trusted_base=proofgate.TRUSTED)
